@@ -322,6 +322,38 @@ fn main() {
             run_case(&spec, &[obj], &script, &ScriptOpts::every(100, 300), &mut cr, "grid");
             cr
         }));
+        // ---- objects with their OWN tiny OTI at the block-count limit of their scheme, in a session whose default OTI is
+        // roomy: whatever is accepted must be numbered with SBNs that do not wrap (16-bit SBN for No-Code and Raptor,
+        // 8-bit for RaptorQ); a refusal is fine
+        let mut lim: Vec<(Fec, u16, u32, i64)> = vec![];
+        for (fec, e, b, blocks) in [(Fec::NoCode, 1u16, 1u32, 65_536i64), (Fec::NoCode, 2, 1, 65_536), (Fec::NoCode, 1, 2, 65_536), (Fec::Raptor, 1, 4, 65_536), (Fec::RaptorQ, 4, 4, 256), (Fec::RaptorQ, 1, 8, 256)] {
+            for d in [-1i64, 0, 1, 2, 65, 1000] {
+                // one block less than the field can number (flute's own limit), the field limit, and beyond
+                for base in [blocks - 1, blocks] {
+                    lim.push((fec, e, b, base * e as i64 * b as i64 + d));
+                }
+            }
+        }
+        let n_lim = lim.len();
+        gens.push(Gen::new("block_count_limit_own_oti", n_lim, move |ctx, i| {
+            let (fec, e, b, l) = lim[i];
+            let mut rng = Rng::keyed(ctx.seed, "C08lim", 0, i as u64);
+            let mut oti = OtiSpec::new(fec, e, b, if fec == Fec::NoCode { 0 } else { 1 });
+            oti.inband_fti = i % 2 == 0;
+            let mut spec = SenderSpec::new(OtiSpec::new(Fec::NoCode, 1400, 64, 0));
+            spec.interleave = 1 + (i % 2) as u8;
+            let mut obj = ObjSpec::new(rng.bytes(l as usize), "file:///lim/o.bin");
+            obj.oti = Some(oti);
+            obj.md5 = false;
+            let script = vec![(When::Start, Op::Add(0)), (When::Start, Op::Publish)];
+            let mut cr = CaseResult::default();
+            let mut opts = ScriptOpts::every(100, 300);
+            opts.max_packets = 600_000;
+            opts.max_per_instant = 600_000;
+            run_case(&spec, &[obj], &script, &opts, &mut cr, "lim");
+            cr.sample = None;
+            cr
+        }));
         // ---- random sessions (cenc, several objects, sources)
         let n_rand = ctx.tier.pick(30_000usize, 2_000_000);
         gens.push(Gen::new("lattice", n_rand, move |ctx, i| {
